@@ -156,6 +156,10 @@ def mc():
         if res["actions"].get("Pipeline." + a, 0) == 0:
             raise MachineryError("Pipeline MC: action %s never fired" % a)
     out.append(("Pipeline/Pipeline_MC.cfg", res))
+    # deeper bound: up to 6 NPU subgraphs and 4 CPU-side operators (507 k distinct states, every dependency-respecting order)
+    deep = tlc.run("Pipeline", "Pipeline_Deep.cfg", workers=16, timeout=900)
+    tlc.must_ok(deep, "Pipeline/Pipeline_Deep.cfg")
+    out.append(("Pipeline/Pipeline_Deep.cfg", deep))
     bad = tlc.run("Pipeline", "Pipeline_NoDep.cfg", workers=2, timeout=600)
     if bad["status"] != "invariant" or bad.get("violated") != "RegsSeeFinalAddresses":
         raise MachineryError("Pipeline negative control (register stream without the flash allocation) expected a violation of "
